@@ -12,7 +12,7 @@
    the patched tree. *)
 From Coq Require Import List Arith Bool.
 Import ListNotations.
-From DDP Require Import Lang.MiniSyntax Lang.MiniTyping Lang.MiniTypingProofs Lang.MiniCheck Lang.MiniCheckProofs
+From DDP Require Import Lang.MiniSyntax Lang.MiniTyping Lang.MiniTypingProofs Lang.MiniCheck Lang.MiniGuard Lang.MiniCheckProofs
                         Lang.MiniShadowFree Lang.MiniCompleteProofs Lang.MiniMutate Lang.MiniMutateProofs.
 
 (* the executable specification used by the harness decides the declarative one *)
@@ -45,10 +45,12 @@ Theorem C04_check_sound_refuted : exists p, check p = [] /\ ~ wf p.
 Proof. exact check_sound_refuted. Qed.
 Print Assumptions C04_check_sound_refuted.
 
-(* each of the four quirks alone makes the frontend unsound; with all four patched the five witnesses are rejected *)
+(* each of the four quirks alone makes the frontend unsound (the loop-bound witness needs two of them); with all
+   four patched the five witnesses are rejected *)
 Theorem C04_each_quirk_unsound :
   check_with (only 0) w_void_eq = [] /\ check_with (only 1) w_void_ret = [] /\
-  check_with (only 2) w_init_self = [] /\ check_with (only 3) w_priv_field = [] /\ check_with (only 0) w_for_scope = [] /\
+  check_with (only 2) w_init_self = [] /\ check_with (only 3) w_priv_field = [] /\
+  check_with void_eq_and_by_name w_for_scope = [] /\
   Forall (fun p => check_patched p <> []) [w_void_eq; w_void_ret; w_init_self; w_priv_field; w_for_scope].
 Proof. exact each_quirk_unsound. Qed.
 Print Assumptions C04_each_quirk_unsound.
